@@ -370,6 +370,8 @@ class _NumericOperationsImpl(OperationsBlock):
 
     @validate_core
     def argmax(self, x, axis=None, keepdims=False):
+        if axis is not None and axis < 0:
+            axis += x.ndim  # see _normalize_axes
         if axis is None:
             reshaped_x = ndx.reshape(x, [-1])._core()
             if keepdims:
@@ -394,6 +396,8 @@ class _NumericOperationsImpl(OperationsBlock):
 
     @validate_core
     def argmin(self, x, axis=None, keepdims=False):
+        if axis is not None and axis < 0:
+            axis += x.ndim  # see _normalize_axes
         if axis is None:
             reshaped_x = ndx.reshape(x, [-1])._core()
             if keepdims:
